@@ -96,7 +96,7 @@ impl XTime {
 
 fn extreme_timing_strategy() -> impl Strategy<Value = Timing> {
     let cycle = prop_oneof![
-        2 => prop::sample::select(vec![f32::MIN_POSITIVE, 1.0e-30, 1.0e-10, 1.0e-3, 1.0, 1.0e10, 1.0e30]),
+        2 => prop::sample::select(vec![f32::MIN_POSITIVE, 1.0e-30, 1.0e-10, 1.0e-3, 1.0, 1.0e10, 1.0e30, 2.0e38, 3.0e38]),
         2 => log_uniform(-37.9, 30.0),
         2 => cycle_strategy(),
     ];
@@ -245,6 +245,16 @@ pub fn c20_run_case(c: &C20Case, obs: &mut Obs) -> Result<u64, String> {
             }
         }
     }
+    // an empty merged timeline: every aggregate is finite, evaluation is a no-op
+    {
+        let empty: MergedTimeline<PTimeline> = MergedTimeline::of(Vec::<PTimeline>::new());
+        let mut q = (0f32, 0f32);
+        catch("empty merged metadata", &mut || q = (empty.delay(), empty.duration()))?;
+        if !q.0.is_finite() || !q.1.is_finite() {
+            return Err(format!("empty merged timeline reports delay {:?} / duration {:?}", q.0, q.1));
+        }
+        let _ = (empty.repeat(), empty.cycle_duration());
+    }
     // animator: build, advance with the same alphabet, query
     let second = TlDesc { timing: Timing { cycle: 1.0, delay: 0.0, repeat: Rep::None, reverse: false }, default_ez: Ez::Linear, kfs: vec![KfDesc { pos: 1.0, a: Some(3.0), b: None, c: None, d: None, ez: None }], order: 0 };
     let desc = AnimDesc {
@@ -281,6 +291,21 @@ pub fn c20_run_case(c: &C20Case, obs: &mut Obs) -> Result<u64, String> {
         }
         obs.label(3);
         obs.judged += 1;
+    }
+    // the same advances once more while in a state WITHOUT a timeline (its clock is never read, but
+    // it must not blow up either)
+    catch("set_state to an un-animated state", &mut || an.set_state(&St::S2))?;
+    for (n, xt) in c.advances.iter().enumerate() {
+        let dt = xt.resolve(&tm);
+        catch(&format!("advance({dt:?}) in an un-animated state (#{n}, {xt:?})"), &mut || an.advance(dt))?;
+        mix(an.is_ended() as u64);
+        for b in an.current_values().bits() {
+            mix(b);
+        }
+    }
+    catch("set_state back", &mut || an.set_state(&St::S0))?;
+    for b in an.current_values().bits() {
+        mix(b);
     }
     obs.nontrivial = obs.labels & 0b111 != 0;
     Ok(h)
